@@ -13,6 +13,7 @@ func main() {
 	logrus.SetLevel(logrus.PanicLevel)
 	r := hv.NewRand(hv.Seed())
 	w := hsx.NewWorld()
+	w.C02Exact()
 	w.C02Readers(r)
 	w.C02Honest()
 	w.C02Swap()
